@@ -213,7 +213,7 @@ fn existing_pair(r: &mut Rng, w: &World) -> Option<(u64, i64)> {
 /// string keys: shared prefixes, the empty string, multi-byte characters and `char::MAX`
 /// (the upper-bound trick the code replaced would miss keys continuing after `char::MAX`)
 pub const SKEYS: [&str; 16] = ["", "a", "ab", "abc", "abd", "ac", "b", "ba", "a\u{10FFFF}", "a\u{10FFFF}b", "a\u{10FFFF}\u{10FFFF}", "é", "aé", "aéb", "ab\u{10FFFF}z", "c"];
-pub const SPRE: [&str; 12] = ["", "a", "ab", "abc", "abcd", "a\u{10FFFF}", "b", "é", "aé", "d", "ab\u{10FFFF}", "ac"];
+pub const SPRE: [&str; 14] = ["", "a", "ab", "abc", "abcd", "a\u{10FFFF}", "b", "é", "aé", "d", "ab\u{10FFFF}", "ac", "c", "\u{10FFFF}"];
 
 pub fn gen_rq(r: &mut Rng) -> String {
     let q = gen_q(r, 3);
@@ -291,7 +291,9 @@ fn gen_one(r: &mut Rng, w: &World) -> String {
         60..=61 => format!("get {}", key(r)),
         62 => format!("sins {} {}", r.below(4), crate::world::hex_str(*r.pick(&SKEYS[..]))),
         63 => {
-            if r.chance(1, 2) && !w.soracle.is_empty() {
+            if r.chance(1, 6) {
+                format!("srem {} {}", r.below(4), crate::world::hex_str(*r.pick(&SKEYS[..])))
+            } else if r.chance(1, 2) && !w.soracle.is_empty() {
                 let i = r.usize(w.soracle.len());
                 let (k, s) = w.soracle.iter().nth(i).unwrap();
                 format!("srem {} {}", s.iter().next().unwrap(), crate::world::hex_str(k))
